@@ -92,6 +92,18 @@ pub fn check(c: &Case, seams_open: bool) -> CheckResult {
     o.class(["cap:butt", "cap:round", "cap:square"][c.style.cap as usize % 3]);
     o.class(["join:miter", "join:round", "join:bevel"][c.style.join as usize % 3]);
     o.class_if(curves, "curves");
+    {
+        let mut cont = false;
+        let mut cont_curve = false;
+        for w in c.path.ops.windows(2) {
+            if matches!(w[0], POp::Z) {
+                cont |= matches!(w[1], POp::L(..) | POp::Q(..) | POp::C(..));
+                cont_curve |= matches!(w[1], POp::Q(..) | POp::C(..));
+            }
+        }
+        o.class_if(cont, "subpath-continued-after-close");
+        o.class_if(cont_curve, "curve-directly-after-close");
+    }
     o.class_if(polys.iter().any(|p| p.closed), "closed-subpath");
     // closed subpath whose last explicit point equals its start
     {
@@ -267,7 +279,38 @@ pub fn stroke_path(ext: f32, allow_curves: bool) -> BoxedStrategy<PathSpec> {
         });
     let sub = if allow_curves { prop_oneof![1 => poly_sub.boxed(), 1 => curve_sub.boxed()].boxed() } else { poly_sub.boxed() };
     // (the fill rule of the path that is stroked is irrelevant to its stroke; one path in three carries EvenOdd)
-    (prop::collection::vec(sub, 1..=3), prop::bool::weighted(0.33)).prop_map(|(subs, evenodd)| PathSpec { ops: subs.concat(), evenodd }).boxed()
+    // (a subpath that follows a closed one may also *continue* from that subpath's starting point, without a
+    // move_to of its own: it is then moved so that it begins there, and its MoveTo is dropped)
+    (prop::collection::vec(sub, 1..=3), prop::bool::weighted(0.33), prop::collection::vec(prop::bool::weighted(0.35), 3))
+        .prop_map(|(subs, evenodd, cont)| {
+            let mut ops: Vec<POp> = Vec::new();
+            let mut start = (0.0f32, 0.0f32);
+            let mut prev_closed = false;
+            for (k, sub) in subs.iter().enumerate() {
+                let mut sub = sub.clone();
+                match sub[0] {
+                    POp::M(ax, ay) if k > 0 && prev_closed && cont[k] => {
+                        let (dx, dy) = (start.0 - ax, start.1 - ay);
+                        for op in sub.iter_mut() {
+                            *op = match *op {
+                                POp::M(x, y) => POp::M(x + dx, y + dy),
+                                POp::L(x, y) => POp::L(x + dx, y + dy),
+                                POp::Q(a, b, x, y) => POp::Q(a + dx, b + dy, x + dx, y + dy),
+                                POp::C(a, b, c, d, x, y) => POp::C(a + dx, b + dy, c + dx, d + dy, x + dx, y + dy),
+                                POp::Z => POp::Z,
+                            };
+                        }
+                        sub.remove(0);
+                    }
+                    POp::M(ax, ay) => start = (ax, ay),
+                    _ => {}
+                }
+                prev_closed = matches!(sub.last(), Some(POp::Z));
+                ops.extend(sub);
+            }
+            PathSpec { ops, evenodd }
+        })
+        .boxed()
 }
 
 fn stroke_xf(curves: bool) -> BoxedStrategy<Xf> {
